@@ -23,7 +23,52 @@ type StCase struct {
 	Write  int    `json:"write"`  // server.timeouts.write, seconds
 }
 
+// readd: a backend name is removed and added again at ANOTHER address through the admin API of the real binary: traffic
+// for the name must reach the new address (and only it)
+func runReadd(tag string) (string, map[string]int) {
+	stats := map[string]int{"kind_readd": 1}
+	mk := func(who string) *httptest.Server {
+		return httptest.NewServer(http.HandlerFunc(func(w http.ResponseWriter, r *http.Request) { w.Write([]byte(who)) }))
+	}
+	oldS, newS := mk("old"), mk("new")
+	defer oldS.Close()
+	defer newS.Close()
+	cfg := wiConfig(WiCfg{Strategy: []string{"round_robin", "least_connections", "weighted_round_robin", "ip_hash", "ip_hash_consistent"}[len(tag)%5]}, freePort(), []string{oldS.URL})
+	cfg.AdminAPI.Enabled, cfg.AdminAPI.Port = true, freePort()
+	hp, err := startHelios(cfg, "st."+tag)
+	if err != nil {
+		panic(err)
+	}
+	defer hp.stop()
+	front := fmt.Sprintf("127.0.0.1:%d", hp.port)
+	admin := fmt.Sprintf("http://127.0.0.1:%d", cfg.AdminAPI.Port)
+	who := func() string {
+		r := rawExchange(front, buildRequest("GET", "/who", "st.local", nil, nil, ""), "GET", 3*time.Second)
+		return strings.TrimSpace(string(r.Body))
+	}
+	post := func(path, body string) int {
+		resp, err := http.Post(admin+path, "application/json", strings.NewReader(body))
+		if err != nil {
+			return -1
+		}
+		resp.Body.Close()
+		return resp.StatusCode
+	}
+	before := who()
+	rm := post("/v1/backends/remove", `{"name":"b0"}`)
+	add := post("/v1/backends/add", fmt.Sprintf(`{"name":"b0","address":%q,"weight":1}`, newS.URL))
+	a1, a2 := who(), who()
+	stats["before_"+before]++
+	stats["after_"+a1]++
+	adminOK := before == "old" && rm == 200 && (add == 200 || add == 201)
+	servedNew := a1 == "new" && a2 == "new"
+	return fmt.Sprintf("mkStCase 2 0 0 %s %s", B(servedNew), B(adminOK)), stats
+}
+
 func runStCase(c StCase, tag string) (string, map[string]int) {
+	if c.Kind == "readd" {
+		return runReadd(tag)
+	}
 	stats := map[string]int{"kind_" + c.Kind: 1}
 	be := httptest.NewServer(http.HandlerFunc(func(w http.ResponseWriter, r *http.Request) {
 		io.Copy(io.Discard, r.Body) // a backend that wants the whole upload
@@ -77,7 +122,7 @@ func runStCase(c StCase, tag string) (string, map[string]int) {
 
 func TestStall(t *testing.T) {
 	cw := NewCaseWriter("stall")
-	cases := []StCase{{Kind: "body", ReadTO: 1, Write: 30}, {Kind: "head", ReadTO: 1, Write: 30}, {Kind: "body", ReadTO: 1, Write: 0}}
+	cases := []StCase{{Kind: "body", ReadTO: 1, Write: 30}, {Kind: "head", ReadTO: 1, Write: 30}, {Kind: "body", ReadTO: 1, Write: 0}, {Kind: "readd"}}
 	if Tier() == "thorough" {
 		cases = append(cases, StCase{Kind: "body", ReadTO: 2, Write: 1}, StCase{Kind: "head", ReadTO: 2, Write: 0}, StCase{Kind: "body", ReadTO: 3, Write: 30})
 	}
